@@ -65,6 +65,9 @@ def run(ctx):
         "RealEvery": 12 if q else 4,
         "RectEvery": 40 if q else 3,
         "RectOff": rnd.randrange(3),
+        "BandFaces": {0, 1, 3, 4},
+        "BandEvery": 9 if q else 1,
+        "BandOff": rnd.randrange(9) if q else 0,
         "ObsFile": '""',
     }
     r = ctx.tlc("Gen_Coverer", vlib.cfg(constants=consts, invariants=MODEL_INV), workers=12,
